@@ -153,7 +153,12 @@ def canonical_line(E, snaps):
 def count_line(item):
     """worker: (profile dict, options) -> canonical observation line"""
     p, o = item
-    text = gen.blt(p)
+    return count_line_text((gen.blt(p), o))
+
+
+def count_line_text(item):
+    """worker: (BLT text, options) -> canonical observation line"""
+    text, o = item
     try:
         outcome, E, snaps = count_record(text, o)
     except Exception as e:
